@@ -13,6 +13,7 @@ name: llist_append
 define: U_APPEND
 src: linked_list.c
 tier: B
+native: self
 backend: cadical
 unwind: 8
 unwind_thorough: 12
@@ -24,6 +25,7 @@ name: llist_prepend_b
 define: U_PREPEND
 src: linked_list.c
 tier: B
+native: self
 backend: cadical
 unwind: 8
 unwind_thorough: 12
@@ -35,6 +37,7 @@ name: llist_insert_at
 define: U_INSERT_AT, U_NOT_M1, VL_MINN=1
 src: linked_list.c
 tier: B
+native: self
 backend: cadical
 unwind: 8
 unwind_thorough: 12
@@ -46,6 +49,7 @@ name: llist_insert_at_empty_le0
 define: U_INSERT_AT, U_NOT_M1, VL_FIXN=0, U_IDX_LE0
 src: linked_list.c
 tier: B
+native: self
 backend: cadical
 unwind: 8
 unwind_thorough: 12
@@ -57,6 +61,7 @@ name: llist_insert_at_empty_grow
 define: U_INSERT_AT, VL_FIXN=0, U_IDX_GE1
 src: linked_list.c
 tier: B
+native: self
 backend: cadical
 unwind: 8
 unwind_thorough: 12
@@ -68,6 +73,7 @@ name: llist_insert_at_m1
 define: U_INSERT_AT, U_M1
 src: linked_list.c
 tier: B
+native: self
 backend: cadical
 unwind: 8
 unwind_thorough: 12
@@ -79,6 +85,7 @@ name: llist_remove_at
 define: U_REMOVE_AT
 src: linked_list.c
 tier: B
+native: self
 backend: cadical
 unwind: 8
 unwind_thorough: 12
@@ -90,6 +97,7 @@ name: llist_get
 define: U_GET
 src: linked_list.c
 tier: B
+native: self
 backend: cadical
 unwind: 8
 unwind_thorough: 12
@@ -101,6 +109,7 @@ name: llist_remove
 define: U_REMOVE
 src: linked_list.c
 tier: B
+native: self
 backend: cadical
 unwind: 8
 unwind_thorough: 12
@@ -112,6 +121,7 @@ name: llist_index_find
 define: U_INDEX
 src: linked_list.c
 tier: B
+native: self
 backend: cadical
 unwind: 8
 unwind_thorough: 12
@@ -123,6 +133,7 @@ name: llist_reverse
 define: U_REVERSE, VL_MINN=1
 src: linked_list.c
 tier: B
+native: self
 backend: cadical
 unwind: 8
 unwind_thorough: 12
@@ -134,6 +145,7 @@ name: llist_reverse_empty
 define: U_REVERSE, VL_FIXN=0
 src: linked_list.c
 tier: B
+native: self
 backend: cadical
 unwind: 8
 unwind_thorough: 12
@@ -145,6 +157,7 @@ name: llist_to_array
 define: U_TO_ARRAY
 src: linked_list.c
 tier: B
+native: self
 backend: cadical
 unwind: 8
 unwind_thorough: 12
@@ -156,6 +169,7 @@ name: llist_iterate
 define: U_ITERATE
 src: linked_list.c, obj.c
 tier: B
+native: self
 backend: cadical
 unwind: 8
 unwind_thorough: 12
@@ -173,48 +187,40 @@ funcs: spif_linked_list_iterator, spif_linked_list_iterator_new, spif_linked_lis
 
 #define LT spif_linked_list_t
 #define IT spif_linked_list_item_t
-#define BUILD(self, m) VL_BUILD(self, LT, IT, SPIF_LISTCLASS_VAR(linked_list), VL_SL, m, vl_pick_len(), vl_data_list)
+#define BUILD(self, m) do { VL_INPUTS(vin, a); VL_BUILD(self, LT, IT, SPIF_LISTCLASS_VAR(linked_list), VL_SL, m, vin, vl_data_list); } while (0)
 #define CHECK(self, m, OP) VL_CHECK(self, IT, VL_SL, m, OP)
 
 vl_seq_t m;             /* ideal sequence */
-int w_n, w_idx, w_key, w_xnull;
-
-/* the element argument: NULL or a fresh velem with an arbitrary key */
-static spif_obj_t pick_obj(int *k, int allow_null)
-{
-    *k = nondet_int();
-    w_key = *k;
-    if (allow_null && nondet_bool()) { w_xnull = 1; *k = 0; return (spif_obj_t) NULL; }
-    return (spif_obj_t) vl_elem(*k);
-}
+vl_in_t vin;            /* the built container's inputs (VND: replayable natively) */
+int w_n, w_idx, w_key;
 
 void harness(void)
 {
     LT self;
     spif_obj_t x, r, want;
-    int k;
-    spif_listidx_t idx = nondet_int();
+    int k = (int) VND(int, k);      /* key of the element / probe argument (never NULL: C16's subject) */
+    spif_listidx_t idx = (spif_listidx_t) VND(int, idx);
     spif_bool_t b;
 
     BUILD(self, m);
     w_n = m.len; w_idx = idx;
 
 #ifdef U_APPEND
-    x = pick_obj(&k, 0);
+    x = (spif_obj_t) vl_elem(k); w_key = k;
     b = spif_linked_list_append(self, x);
     vl_ideal_append(&m, x, k);
     __CPROVER_assert(b == TRUE, "llist append: returns TRUE");
     CHECK(self, m, "llist append");
 #endif
 #ifdef U_PREPEND
-    x = pick_obj(&k, 0);
+    x = (spif_obj_t) vl_elem(k); w_key = k;
     b = spif_linked_list_prepend(self, x);
     vl_ideal_insert_pos(&m, 0, x, k);
     __CPROVER_assert(b == TRUE, "llist prepend: returns TRUE");
     CHECK(self, m, "llist prepend");
 #endif
 #ifdef U_INSERT_AT
-    x = pick_obj(&k, 0);
+    x = (spif_obj_t) vl_elem(k); w_key = k;
     __CPROVER_assume(idx <= m.len + VL_GROW);
 # ifdef U_NOT_M1
     __CPROVER_assume(idx != -m.len - 1);
@@ -254,7 +260,7 @@ void harness(void)
     CHECK(self, m, "llist get");
 #endif
 #ifdef U_REMOVE
-    x = pick_obj(&k, 0);
+    x = (spif_obj_t) vl_elem(k); w_key = k;
     {
         int p = vl_ideal_index(&m, k);
         want = (p < 0) ? (spif_obj_t) NULL : m.e[p];
@@ -267,7 +273,7 @@ void harness(void)
     }
 #endif
 #ifdef U_INDEX
-    x = pick_obj(&k, 0);
+    x = (spif_obj_t) vl_elem(k); w_key = k;
     {
         int p = vl_ideal_index(&m, k);
         spif_listidx_t gi = spif_linked_list_index(self, x);
@@ -289,7 +295,7 @@ void harness(void)
     {
         spif_obj_t *a = spif_linked_list_to_array(self);
         int i;
-        __CPROVER_assert(m.len == 0 || __CPROVER_r_ok(a, sizeof(spif_obj_t) * m.len), "llist to_array: result holds len slots");
+        __CPROVER_assert(m.len == 0 || VL_R_OK(a, sizeof(spif_obj_t) * m.len), "llist to_array: result holds len slots");
         for (i = 0; i < VL_CAP && i < m.len; i++)
             __CPROVER_assert(a[i] == m.e[i], "llist to_array: slot i is ideal element i");
         CHECK(self, m, "llist to_array");
